@@ -125,6 +125,13 @@ pub struct Case {
     /// get_flags_for_height_and_constants and are added on every path
     #[serde(default)]
     pub era: u8,
+    /// how the block-validation paths receive the bundle: 0 = plain serialisation, every
+    /// condition its own CLVM node; 1 = generator and spend list serialised with
+    /// back-references (identical sub-trees, e.g. a condition emitted twice, decode to ONE
+    /// node); 2 = as 1 and run_block_generator2 additionally runs with INTERNED_GENERATOR;
+    /// 3 = plain bytes with INTERNED_GENERATOR. The verdict must not depend on it.
+    #[serde(default)]
+    pub node_sharing: u8,
     pub bundles: Vec<BundleSpec>,
     pub prefix: Vec<Party>,
     pub threads: Vec<Vec<Party>>,
@@ -593,9 +600,10 @@ struct Built {
     bundle: SpendBundle,
     signature: Signature,
     mempool_visitor: bool,
+    node_sharing: u8,
 }
 
-fn build(dl: &Delivered, mempool_visitor: bool) -> Built {
+fn build(dl: &Delivered, mempool_visitor: bool, node_sharing: u8) -> Built {
     let mut a = Allocator::new();
     let mut tree_items = vec![];
     let mut gen_items = vec![];
@@ -622,12 +630,14 @@ fn build(dl: &Delivered, mempool_visitor: bool) -> Built {
     let inner = list(&mut a, &[gl]);
     let q = a.new_atom(&[1]).unwrap();
     let generator = a.new_pair(q, inner).unwrap();
+    let backrefs = matches!(node_sharing % 4, 1 | 2);
     Built {
-        spends_tree: node_to_bytes(&a, tree).unwrap(),
-        generator: node_to_bytes(&a, generator).unwrap(),
+        spends_tree: if backrefs { clvmr::serde::node_to_bytes_backrefs(&a, tree).unwrap() } else { node_to_bytes(&a, tree).unwrap() },
+        generator: if backrefs { clvmr::serde::node_to_bytes_backrefs(&a, generator).unwrap() } else { node_to_bytes(&a, generator).unwrap() },
         bundle: SpendBundle::new(coin_spends, dl.signature.clone()),
         signature: dl.signature.clone(),
         mempool_visitor,
+        node_sharing: node_sharing % 4,
     }
 }
 
@@ -647,7 +657,11 @@ fn block_flags(case: &Case) -> ConsensusFlags {
 
 fn path_parse_spends(b: &Built, cache: Option<&BlsCache>, k: &ConsensusConstants, flags: ConsensusFlags) -> Result<(), String> {
     let mut a = Allocator::new();
-    let tree = clvmr::serde::node_from_bytes(&mut a, &b.spends_tree).map_err(|e| format!("{e:?}"))?;
+    let tree = if matches!(b.node_sharing, 1 | 2) {
+        clvmr::serde::node_from_bytes_backrefs(&mut a, &b.spends_tree).map_err(|e| format!("{e:?}"))?
+    } else {
+        clvmr::serde::node_from_bytes(&mut a, &b.spends_tree).map_err(|e| format!("{e:?}"))?
+    };
     if b.mempool_visitor {
         parse_spends::<MempoolVisitor>(&a, tree, MAX_COST, 0, flags, &b.signature, cache, k)
             .map(|_| ())
@@ -660,6 +674,7 @@ fn path_parse_spends(b: &Built, cache: Option<&BlsCache>, k: &ConsensusConstants
 }
 
 fn path_generator(b: &Built, cache: Option<&BlsCache>, k: &ConsensusConstants, flags: ConsensusFlags) -> Result<(), String> {
+    let flags = if b.node_sharing >= 2 { flags | ConsensusFlags::INTERNED_GENERATOR } else { flags };
     run_block_generator2::<&[u8], _>(&b.generator, [], MAX_COST, flags, &b.signature, cache, k)
         .map(|_| ())
         .map_err(|e| format!("{:?}", e.error_code()))
@@ -860,7 +875,7 @@ impl C05 {
             }
         }
         let truths: Arc<Vec<Truth>> = Arc::new(delivered.iter().map(|dl| truth(dl, &dconst)).collect());
-        let built: Arc<Vec<Built>> = Arc::new(delivered.iter().map(|dl| build(dl, case.mempool_visitor)).collect());
+        let built: Arc<Vec<Built>> = Arc::new(delivered.iter().map(|dl| build(dl, case.mempool_visitor, case.node_sharing)).collect());
         for (i, t) in truths.iter().enumerate() {
             d.u64(u64::from(t.accept));
             if t.accept { c.inc("bundles.expected_accept") } else { c.inc("bundles.expected_reject") }
@@ -1348,6 +1363,7 @@ impl Engine for C05 {
             capacity: *rng.pick(&[1u32, 2, 3, 64]),
             cost_conditions: rng.chance(1, 2),
             mempool_visitor: rng.chance(1, 3),
+            node_sharing: if rng.chance(1, 2) { 0 } else { rng.range(1, 3) as u8 },
             extra_flags: if rng.chance(1, 3) { rng.below(4) as u8 } else { 0 },
             era: if rng.chance(1, 2) { 0 } else { 1 + rng.below(3) as u8 },
             bundles,
